@@ -68,4 +68,5 @@ REG.add(Contract(FILE, 'FilteredConfigParser.__init__',
     ensures=_init_post, post_names=['exclude-mode', 'no-filter', 'include-mode', 'wraps-the-parser', 'species-list-is-a-list'],
     raises_when=lambda v, old, exc: [z3.BoolVal(exc.cls == 'ValueError'),
                                      z3.And(z3.Not(old.val('exclude').isnone), z3.Length(_t(old, old.val('exclude').val)) > 0, z3.Not(old.val('include').isnone), z3.Length(_t(old, old.val('include').val)) > 0)],
-    on_raise=lambda v, old: [], carries=['post', 'raises'], props=['C13']))
+    on_raise=lambda v, old: [z3.And(z3.Not(old.val('exclude').isnone), z3.Length(_t(old, old.val('exclude').val)) > 0, z3.Not(old.val('include').isnone), z3.Length(_t(old, old.val('include').val)) > 0)],
+    raises_classes=['ValueError'], carries=['post', 'raises'], props=['C13']))
